@@ -11,6 +11,7 @@ def check(rep, tier, replay=None):
     switches.run(rep, "C04")
     layers.run(rep, 1)
     layers.run_rminus(rep)
+    layers.run_ir(rep, tier, 1)
     rep.explanations.append(
         "dr_action: for SO2/SO3/SE2/SE3/Galilei the returned matrix equals, column by column, matrix(g) hat(e_i) [v;1] -- the derivative of "
         "(g exp(eps e_i)) v at eps = 0 -- as an exact polynomial identity modulo the unit-norm constraints (optimized IR, polynomial domain).")
